@@ -233,7 +233,8 @@ fn enabled(arena: &Arena, sh: &Shadow, op: &Op) -> bool {
         }
         Op::ShrinkTail => sh.live.last().is_some_and(|b| tail(b) && b.len >= 2),
         Op::ShrinkNonTail => sh.live.len() >= 2 && !tail(&sh.live[0]) && sh.live[0].len >= 2,
-        Op::Reset(j) => *j < sh.marks.len(),
+        // reset() deallocates *down to* an offset: only marks at or below the current one
+        Op::Reset(j) => sh.marks.get(*j).is_some_and(|m| *m <= offset),
         // growth through Vec/String aborts the process on failure (handle_alloc_error): only
         // run them when there is room for the doubling strategy
         Op::VecPush(n) => cap - offset > n * 8 * 4 + 64,
@@ -350,6 +351,13 @@ fn apply(arena: &Arena, sh: &mut Shadow, op: &Op) -> Result<(), Bad> {
                     sh.live[idx] = Block { start: ptr, len, align: b.align, pat: b.pat };
                     if len == 0 {
                         sh.live.remove(idx);
+                    }
+                    // A tail shrink lowers the offset: marks taken above it no longer denote
+                    // "deallocate down to here" (reset() is only defined downwards), and the
+                    // next block is expected at the new offset, not at an earlier reset's mark.
+                    sh.marks.retain(|m| *m <= off);
+                    if sh.pending_reset.is_some_and(|m| off < m) {
+                        sh.pending_reset = None;
                     }
                 }
                 Err(_) => return Err(("shrink-failed".into(), json!({}))),
